@@ -21,7 +21,7 @@ RING_BUFFER_ITER_API(ring32, uint32_t)
 RING_BUFFER(ring32, uint32_t)
 RING_BUFFER_ITER(ring32, uint32_t)
 
-#define MAXCAP 8
+#define MAXCAP 10
 
 enum { OP_PUT_A, OP_PUT_B, OP_GET, OP_CLEAR, OP_OVR_ON, OP_OVR_OFF, NOPS };
 static const char *OPN[NOPS] = { "put(A)", "put(B)", "get", "clear", "override(on)", "override(off)" };
@@ -211,7 +211,7 @@ int
 main(int argc, char **argv)
 {
     mc_init(argc, argv);
-    const size_t maxcap = mc_thorough() ? 8 : 5;
+    const size_t maxcap = mc_thorough() ? 10 : 5;
     for (size_t cap = 1; cap <= maxcap; ++cap) {
         /* one partition per (capacity, element type): independent searches */
         if (mc_partition((int)(3 * (maxcap - cap) + 0), (int64_t)(3 * cap + 0)))
